@@ -641,8 +641,16 @@ func writeEvidence(root, id, tier string, seed int, out *checkOutcome, st *selft
 		"floats, bit operations, rune decoding, map iteration order: uninterpreted / nondeterministic",
 		"package-level error sentinels are non-nil and never reassigned (checked by SSA scan)",
 	)
+	// the slowest obligations (a margin report: an obligation near the limit is the one that will fail under load)
+	slow := append([]oblResult(nil), out.obls...)
+	sort.Slice(slow, func(i, j int) bool { return slow[i].R.Seconds > slow[j].R.Seconds })
+	var slowest []string
+	for i := 0; i < len(slow) && i < 5; i++ {
+		slowest = append(slowest, fmt.Sprintf("%.1fs %s %s::%s", slow[i].R.Seconds, slow[i].R.Solver, shortName(slow[i].O.Func), slow[i].O.Name))
+	}
 	level := "proof"
 	cov := map[string]interface{}{
+		"slowest_obligations":      slowest,
 		"obligations":              len(out.obls),
 		"discharged":               nd,
 		"checker_cmd":              fmt.Sprintf("/verif/bin/govc check --tier %s %s  (VC generation over go/ssa of /repo's working tree; portfolio z3 5.1.0 / cvc5 1.0.3 / z3 4.8.12)", tier, id),
